@@ -326,6 +326,10 @@ type CastBytes []byte
 // Duration is the configurable custom duration type.
 type Duration int64
 
+// LeaseDuration and XDuration are ordinary integer cast types whose names merely end with "Duration".
+type LeaseDuration int64
+type XDuration int32
+
 func (d Duration) String() string { return time.Duration(d).String() }
 
 type CustomStr string
